@@ -1,9 +1,11 @@
 package lib
 
 import (
+	"fmt"
 	"net"
 	"regexp"
 	"strconv"
+	"strings"
 
 	"github.com/refraction-networking/conjure/pkg/station/geoip"
 	"github.com/refraction-networking/conjure/pkg/station/liveness"
@@ -52,12 +54,20 @@ type RegConfig struct {
 
 // ParseBlocklists converts string arrays of blocklisted domains, addresses and
 // subnets and parses them into a usable format
-func (c *RegConfig) ParseBlocklists() {
+//
+// An entry that cannot be parsed is reported as an error instead of being dropped silently: the
+// addresses it was meant to cover would be left unprotected, and an allowlist made of
+// unparsable entries only would be switched off.
+func (c *RegConfig) ParseBlocklists() error {
+	var bad []string
+
 	c.covertBlocklistSubnets = []*net.IPNet{}
 	for _, subnet := range c.CovertBlocklistSubnets {
-		_, ipNet, err := net.ParseCIDR(subnet)
+		_, ipNet, err := net.ParseCIDR(strings.TrimSpace(subnet))
 		if err == nil {
 			c.covertBlocklistSubnets = append(c.covertBlocklistSubnets, ipNet)
+		} else {
+			bad = append(bad, subnet)
 		}
 	}
 
@@ -71,28 +81,36 @@ func (c *RegConfig) ParseBlocklists() {
 
 	c.phantomBlocklist = []*net.IPNet{}
 	for _, subnet := range c.PhantomBlocklist {
-		_, ipNet, err := net.ParseCIDR(subnet)
+		_, ipNet, err := net.ParseCIDR(strings.TrimSpace(subnet))
 		if err == nil {
 			c.phantomBlocklist = append(c.phantomBlocklist, ipNet)
+		} else {
+			bad = append(bad, subnet)
 		}
 	}
 
 	c.covertAllowlistSubnets = []*net.IPNet{}
 	for _, subnet := range c.CovertAllowlistSubnets {
-		_, ipNet, err := net.ParseCIDR(subnet)
+		_, ipNet, err := net.ParseCIDR(strings.TrimSpace(subnet))
 		if err == nil {
 			c.covertAllowlistSubnets = append(c.covertAllowlistSubnets, ipNet)
+		} else {
+			bad = append(bad, subnet)
 		}
 	}
 	if len(c.covertAllowlistSubnets) > 0 {
 		c.enableCovertAllowlist = true
 	}
 
+	if len(bad) > 0 {
+		return fmt.Errorf("unable to parse blocklist / allowlist entries: %q", bad)
+	}
+
 	if c.CovertBlocklistPublicAddrs {
 		// Add all public local addresses to the blocklist.
 		ifaces, err := net.Interfaces()
 		if err != nil {
-			return
+			return nil
 		}
 
 		for _, i := range ifaces {
@@ -115,6 +133,8 @@ func (c *RegConfig) ParseBlocklists() {
 			}
 		}
 	}
+
+	return nil
 }
 
 // ParseOrResolveBlocklisted attempts to return an IP:port string whenever
